@@ -435,6 +435,21 @@ def run_history(drv, case: dict, *, terminal=None, stop_on_first: bool = False) 
                 if kind == "get":
                     sp, su, d = op["sp"], op["su"], op["d"]
                     exc = None
+                    spi = SPACES.index((sp[0], bool(sp[1])))
+                    # per-clean-up removed sets: snapshot the table's ids (second connection) right
+                    # before each internal DELETE statement and at the next statement after it
+                    snaps, pending = [], [None]
+
+                    def hook(stmt, _ns=NS[spi]):
+                        if pending[0] is not None:
+                            post = {r[0] for r in s.conn2.execute(f"SELECT id FROM {_ns}")}
+                            snaps.append(sorted(pending[0] - post))
+                            pending[0] = None
+                        if _RX_DELETE_IN.match(stmt):
+                            pending[0] = {r[0] for r in s.conn2.execute(f"SELECT id FROM {_ns}")}
+
+                    if s.trace:
+                        s.trace.hook = hook
                     try:
                         if terminal is not None:
                             inst = terminal.assign_id(d, cols=1, rows=1, id_space=s.space(sp), id_subspace=s.sub(su))
@@ -444,17 +459,16 @@ def run_history(drv, case: dict, *, terminal=None, stop_on_first: bool = False) 
                             rid = s.man.get_id(d, s.space(sp), subspace=s.sub(su))
                     except Exception as e:          # noqa: BLE001
                         exc, rid = _exc_kind(e), None
+                    finally:
+                        if s.trace:
+                            s.trace.hook = None
+                    if pending[0] is not None:
+                        post = {r[0] for r in s.conn2.execute(f"SELECT id FROM {NS[spi]}")}
+                        snaps.append(sorted(pending[0] - post))
                     stmts = s.trace.take() if s.trace else []
                     after = s.dump()
                     rounds, ncleanups, blocks = get_id_trace_choices(stmts)
-                    # removed sets of the internal clean-ups: not visible per clean-up from outside;
-                    # every clean-up removes an oldest-first prefix, so split the total removal by
-                    # the model's own limits (the model checks each part is admissible).
-                    spi = SPACES.index((sp[0], bool(sp[1])))
-                    gone = _gone(before["ids"][spi], after["ids"][spi], rid)
-                    if ncleanups and rid is not None and any(r[0] == rid for r in before["ids"][spi]):
-                        gone.append(rid)       # cleaned up first, then drawn again as a free candidate
-                    removed = _split_removed(ask, sp, su, before["ids"][spi], gone, ncleanups, max_ids, im)
+                    removed = snaps
                     res = ask(f"get {sp_tok(sp)} {su[0]} {su[1]} {hxs(d)} {now} {rid if rid is not None else 0} "
                               f"{_enc_rounds(rounds)} {_enc_rounds(removed)}")
                     if rid is not None:
@@ -757,32 +771,6 @@ def _gone(before_rows, after_rows, rid):
 
 def _enc_rounds(rounds):
     return "/".join(",".join(map(str, r)) or "-" for r in rounds) or "-"
-
-
-def _split_removed(ask, sp, su, before_rows, gone, ncleanups, max_ids, im):
-    """Distribute the ids removed during one large-path get_id over its internal clean-ups. Each
-    clean-up k removes `max(count_k - limit_k, 0)` rows; the removed ids (plus possibly the returned
-    id, if it was first cleaned up and then re-drawn) are handed out oldest first. The model verifies
-    each part, so a wrong split shows as a bad choice, never as a silent pass."""
-    if ncleanups == 0:
-        return []
-    toks = ask(f"fraclimits {sp_tok(sp)} {su[0]} {su[1]}").split(" ")
-    limits = [] if toks[2] == "-" else [int(x) for x in toks[2].split(",")]
-    space, sub = im.IDSpace(sp[0], sp[1]), im.IDSubspace(su[0], su[1])
-    lo, hi = space.subspace_masked_range(sub)
-    mask = space.subspace_byte_mask()
-    live = [r for r in before_rows if lo <= (r[0] & mask) < hi]
-    count = len(live)
-    at = {r[0]: r[2] for r in before_rows}
-    parts, pool = [], sorted(gone, key=lambda i: at[i])
-    for k in range(ncleanups):
-        n = max(count - limits[k], 0) if k < len(limits) else 0
-        parts.append(pool[:n])
-        pool = pool[n:]
-        count -= n
-    if pool:
-        parts[-1] = parts[-1] + pool
-    return parts
 
 
 def _dump_diff(impl_enc: str, model_enc: str, impl_side: bool):
